@@ -523,7 +523,12 @@ pub fn run_clientread(case: &str) -> String {
             }));
             r.unwrap_or_else(|_| "PANIC".into())
         });
-        let (mut s, _) = listener.accept().unwrap();
+        // (never wait for ever: a client that does not connect, or does not finish, is reported, not waited for)
+        listener.set_nonblocking(true).unwrap();
+        let ta = Instant::now();
+        let accepted = loop { match listener.accept() { Ok(x) => break Some(x), Err(_) => { if ta.elapsed() > Duration::from_secs(3) { break None; } std::thread::sleep(Duration::from_millis(1)); } } };
+        let (mut s, _) = match accepted { Some(x) => x, None => { outs.push("NOCONNECT".into()); continue; } };
+        s.set_nonblocking(false).unwrap();
         s.set_nodelay(true).unwrap();
         // read the request head
         let mut req = Vec::new();
@@ -559,7 +564,9 @@ pub fn run_clientread(case: &str) -> String {
         }
         let _ = s.shutdown(std::net::Shutdown::Both);
         drop(s);
-        outs.push(th.join().unwrap_or_else(|_| "PANIC".into()));
+        let tj = Instant::now();
+        while !th.is_finished() && tj.elapsed() < Duration::from_secs(5) { std::thread::sleep(Duration::from_millis(1)); }
+        if th.is_finished() { outs.push(th.join().unwrap_or_else(|_| "PANIC".into())); } else { outs.push("HANG".into()); }
     }
     outs.join("#")
 }
